@@ -433,7 +433,9 @@ func runC19(r *Run) {
 		"alternate shell:s:%windir%\\system32\\notepad.exe\r\nremoteapplicationcmdline:s:%USERPROFILE%\\100%s %d%%\r\naudiomode:i:2\r\n"} {
 		fn := filepath.Join(dir, fmt.Sprintf("dl-template-%d.rdp", ti))
 		os.WriteFile(fn, []byte(tpl), 0o644)
-		gwURL, _ := url.Parse("https://gw.example.com:443/")
+		// the gateway's own address as config.Load leaves it: with a scheme, or "//" + what was configured;
+		// names, IPv4 and bracketed IPv6 literals, with and without a port
+		gwURL, _ := url.Parse([]string{"https://gw.example.com:443/", "//[2001:db8::7]:8443", "//[::1]", "//192.0.2.7:9443"}[ti%4])
 		for _, split := range []bool{true, false} {
 			h := (&web.Config{PAATokenGenerator: func(context.Context, string, string) (string, error) { return "tok", nil },
 				Hosts: []string{"10.0.0.1:3389"}, HostSelection: "roundrobin", GatewayAddress: gwURL, TemplateFile: fn,
@@ -470,6 +472,9 @@ func runC19(r *Run) {
 					wantUser := u
 					if split {
 						wantUser = strings.SplitN(u, "@", 2)[0]
+					}
+					if !strings.Contains(body, "gatewayhostname:s:"+gwURL.Host+"\r\n") {
+						r.Violation("c19-gateway-host", "the generated file does not name the gateway by its configured address", fmt.Sprintf("gateway address %q (expected line gatewayhostname:s:%s)\nfile: %q\n", gwURL.String(), gwURL.Host, body))
 					}
 					if !strings.Contains(body, "username:s:"+wantUser+"\r\n") {
 						r.Violation("c19-template-kept", "a template setting that the gateway does not control is not kept as it is in the generated file", fmt.Sprintf("user name %q (expected line username:s:%s) splituserdomain=%v\nfile: %q\n", u, wantUser, split, body))
